@@ -126,6 +126,21 @@ def run(ctx):
         want = "err ValueError" if status != 0 or first is None else f"ok {first}"
         if out != want:
             ctx.violation("wrong port / missing error for an ept_map reply", {"towers": rpcfmt.towers(ts)[:300], "status": status, "reply": hx(stub)}, out, want)
+        # the same reply in the other well-formed layouts: every tower INCLUDING the last padded to 8 before the status (what the library's own
+        # encoder and some servers emit), and with the status code's high octets set
+        for status2 in (status, 0x16C9A0D6, 0x01000000, 0) if k else (status,):
+            alt = [ndr64_reply(tbs, status2, tail=(-(len(ndr64_reply(tbs, status2)) - 4)) % 8)]
+            try:
+                alt.append(bytes(e.EptMapResult(entry_handle=None, towers=ts, status=status2).pack()))
+            except Exception:  # noqa
+                pass
+            want2 = "err ValueError" if status2 != 0 or first is None else f"ok {first}"
+            for stub2 in alt:
+                out2 = port_call(stub2)
+                ctx.count("reply_layout:last_tower_padded")
+                if out2 != want2:
+                    ctx.violation("wrong port / missing error for an ept_map reply", {"towers": rpcfmt.towers(ts)[:300], "status": status2, "reply": hx(stub2), "layout": "last tower padded to 8"}, out2, want2)
+                    break
     ctx.count("tower_length_residues_mod8_seen", len(residues))
     # ---- adversarial ------------------------------------------------------------------------------------------------
     base = ndr64_reply([tower_bytes([e.TCPFloor(49664), e.IPFloor(0)]), tower_bytes([e.UUIDFloor(rpcfmt.rand_uuid(rng), 1, 0)])], 0)
